@@ -385,7 +385,8 @@ fn in_context(b: &mut B, ctx: usize, e: Expr, is_str: bool) -> Option<Vec<Stmt>>
 pub const CONTEXTS: usize = 9;
 
 /// Depth-1 expressions: every operator x operand types x value menu x context,
-/// operands as literals (form 0) and as variables (form 1).
+/// operands as literals (form 0), as variables (form 1), and as variables with the whole
+/// expression in parentheses (form 2, in the storing contexts).
 pub fn axis_b_depth1() -> Vec<Snip> {
     let mut out = vec![];
     for op in BinOp::ALL {
@@ -401,7 +402,7 @@ pub fn axis_b_depth1() -> Vec<Snip> {
                 };
                 let result_is_str = ta == Ty::Str && op == BinOp::Add;
                 for (va, vb) in pairs {
-                    for form in 0..2 {
+                    for form in 0..3 {
                         for ctx in 0..CONTEXTS {
                             if !ok && (ctx != 0 || form != 0) {
                                 continue;
@@ -411,6 +412,11 @@ pub fn axis_b_depth1() -> Vec<Snip> {
                             if ctx == 8 && (form == 1 || matches!(op, BinOp::Mul)) {
                                 continue;
                             }
+                            // form 2 (the whole expression in parentheses, operands in variables):
+                            // where the value is stored or bounds a loop
+                            if form == 2 && !matches!(ctx, 1..=5 | 8) {
+                                continue;
+                            }
                             let mut b = B::new();
                             let mut stmts = vec![];
                             let e = if form == 0 {
@@ -418,7 +424,8 @@ pub fn axis_b_depth1() -> Vec<Snip> {
                             } else {
                                 stmts.push(b.assign(tvar("L", ta), va.clone()));
                                 stmts.push(b.assign(tvar("R", tb), vb.clone()));
-                                bin(op, tvar("L", ta), tvar("R", tb))
+                                let e = bin(op, tvar("L", ta), tvar("R", tb));
+                                if form == 2 { Expr::Paren(Box::new(e)) } else { e }
                             };
                             let Some(use_) = in_context(&mut b, ctx, e, result_is_str) else { continue };
                             stmts.extend(use_);
@@ -616,4 +623,126 @@ pub fn data_cases(max_items: usize) -> Vec<(Vec<DataItem>, Vec<Ty>, usize, bool)
         }
     }
     out
+}
+
+// ---------------------------------------------------------------------------
+// Axis C2: where a DATA statement stands does not matter. Three DATA statements
+// (1,2 / 3,4 / 5,6); the middle one inside every kind of block, executed or not,
+// once or twice; READ before or after them. The values always come in textual order.
+// ---------------------------------------------------------------------------
+
+pub const DATA_CONTAINERS: [&str; 22] = [
+    "IF block, taken",
+    "IF block, not taken",
+    "ELSE block, taken",
+    "ELSE block, not taken",
+    "ELSEIF block, taken (ELSE follows)",
+    "ELSEIF block, not taken",
+    "CASE block, taken",
+    "middle CASE block, not taken",
+    "CASE ELSE block, taken",
+    "CASE ELSE block, not taken",
+    "FOR body, two rounds",
+    "FOR body, no round",
+    "FOR STEP -1 body",
+    "WHILE body, two rounds",
+    "WHILE body, no round",
+    "DO WHILE body",
+    "DO UNTIL body",
+    "DO .. LOOP WHILE body",
+    "DO .. LOOP UNTIL body",
+    "IF block inside a FOR body",
+    "FOR body inside an ELSEIF block",
+    "CASE block inside a WHILE body",
+];
+
+pub fn data_placement_program(container: usize, read_first: bool) -> Prog {
+    let mut b = B::new();
+    let mut main = vec![];
+    let vars: Vec<Expr> = (1..=6).map(|i| var(&format!("V{}%", i))).collect();
+    let d = |b: &mut B, lo: i32| b.s(K::Data(vec![DataItem::Num(lo.to_string()), DataItem::Num((lo + 1).to_string())]));
+    if read_first {
+        main.push(b.s(K::Read(vars.clone())));
+    }
+    main.push(d(&mut b, 1));
+    let inner = vec![b.print(vec![st("in")]), d(&mut b, 3)];
+    let other = |b: &mut B, t: &str| vec![b.print(vec![st(t)])];
+    let cnt = || var("C%");
+    let bump = |b: &mut B| b.assign(var("C%"), bin(BinOp::Add, var("C%"), num(1)));
+    let iff = |c: Expr, t: Vec<Stmt>, e: Option<Vec<Stmt>>| K::If { arms: vec![(c, t)], els: e, single_line: false };
+    let s = match container {
+        0 => b.s(iff(num(-1), inner, None)),
+        1 => b.s(iff(num(0), inner, None)),
+        2 => {
+            let t = other(&mut b, "then");
+            b.s(iff(num(0), t, Some(inner)))
+        }
+        3 => {
+            let t = other(&mut b, "then");
+            b.s(iff(num(-1), t, Some(inner)))
+        }
+        4 | 5 => {
+            let t = other(&mut b, "then");
+            let e = other(&mut b, "else");
+            b.s(K::If { arms: vec![(num(0), t), (num(if container == 4 { -1 } else { 0 }), inner)], els: Some(e), single_line: false })
+        }
+        6 => {
+            let e = other(&mut b, "case else");
+            b.s(K::Select { subject: num(1), cases: vec![(vec![CaseExpr::Simple(num(1))], inner)], els: Some(e) })
+        }
+        7 => {
+            let c1 = other(&mut b, "case 1");
+            let c3 = other(&mut b, "case 3");
+            b.s(K::Select { subject: num(3), cases: vec![(vec![CaseExpr::Simple(num(1))], c1), (vec![CaseExpr::Simple(num(2))], inner), (vec![CaseExpr::Simple(num(3))], c3)], els: None })
+        }
+        8 | 9 => {
+            let c1 = other(&mut b, "case 1");
+            b.s(K::Select { subject: num(if container == 8 { 2 } else { 1 }), cases: vec![(vec![CaseExpr::Simple(num(1))], c1)], els: Some(inner) })
+        }
+        10 => b.s(K::For { var: var("I%"), from: num(1), to: num(2), step: None, body: inner, next_var: false }),
+        11 => b.s(K::For { var: var("I%"), from: num(1), to: num(0), step: None, body: inner, next_var: false }),
+        12 => b.s(K::For { var: var("I%"), from: num(2), to: num(1), step: Some(num(-1)), body: inner, next_var: true }),
+        13 | 14 => {
+            let mut body = vec![bump(&mut b)];
+            body.extend(inner);
+            b.s(K::While(bin(BinOp::Lt, cnt(), num(if container == 13 { 2 } else { 0 })), body))
+        }
+        15..=18 => {
+            let mut body = vec![bump(&mut b)];
+            body.extend(inner);
+            let (kind, c) = match container {
+                15 => (DoKind::WhileTop, bin(BinOp::Lt, cnt(), num(2))),
+                16 => (DoKind::UntilTop, bin(BinOp::Ge, cnt(), num(2))),
+                17 => (DoKind::WhileBottom, bin(BinOp::Lt, cnt(), num(2))),
+                _ => (DoKind::UntilBottom, bin(BinOp::Ge, cnt(), num(2))),
+            };
+            b.s(K::Do(kind, c, body))
+        }
+        19 => {
+            let i = b.s(iff(bin(BinOp::Eq, var("I%"), num(2)), inner, None));
+            b.s(K::For { var: var("I%"), from: num(1), to: num(2), step: None, body: vec![i], next_var: false })
+        }
+        20 => {
+            let t = other(&mut b, "then");
+            let f = b.s(K::For { var: var("I%"), from: num(1), to: num(2), step: None, body: inner, next_var: false });
+            b.s(K::If { arms: vec![(num(0), t), (num(0), vec![f])], els: None, single_line: false })
+        }
+        _ => {
+            let e = other(&mut b, "case else");
+            let sel = b.s(K::Select { subject: cnt(), cases: vec![(vec![CaseExpr::Simple(num(2))], inner)], els: Some(e) });
+            let bm = bump(&mut b);
+            b.s(K::While(bin(BinOp::Lt, cnt(), num(2)), vec![bm, sel]))
+        }
+    };
+    main.push(s);
+    main.push(d(&mut b, 5));
+    if !read_first {
+        main.push(b.s(K::Read(vars.clone())));
+    }
+    let mut items = vec![];
+    for v in &vars {
+        items.push(v.clone());
+    }
+    main.push(b.print(items));
+    Prog { main, ..Default::default() }
 }
